@@ -126,6 +126,9 @@ def msg_rule(txt):
         out.append(txt[i:s])
         out.append("msg()")
         i = e
+        m2 = re.match(r"\s*\.into\(\)", txt[i:])  # format!(..).into()
+        if m2:
+            i += m2.end()
     txt = "".join(out)
     txt = re.sub(r'"(?:[^"\\]|\\.)*"\s*\.into\(\)', "msg()", txt)
     return txt
